@@ -458,27 +458,37 @@ type out struct {
 }
 
 type shard struct {
-	o      *out
-	prefix string
-	check  string
-	cf     *emit.CaseFile
-	n      int
+	o       *out
+	prefix  string
+	check   string
+	imports string // default: the codec modules
+	perFile int    // default 700
+	cf      *emit.CaseFile
+	n       int
 }
 
-func (o *out) newShard(prefix, check string) *shard { return &shard{o: o, prefix: prefix, check: check} }
+func (o *out) newShard(prefix, check string) *shard {
+	return &shard{o: o, prefix: prefix, check: check}
+}
 
 func (s *shard) add(term, text string, nontrivial bool, kind string) error {
 	if s.cf == nil {
-		s.cf = &emit.CaseFile{Name: fmt.Sprintf("Cases_C15_%s_%d", s.prefix, s.n),
-			Imports: "From CliUtils Require Import Base.Strings Model.IdCodec Model.DependsOnCodec Corr.CorrC15.",
-			Check:   s.check}
+		imports := s.imports
+		if imports == "" {
+			imports = "From CliUtils Require Import Base.Strings Model.IdCodec Model.DependsOnCodec Corr.CorrC15."
+		}
+		s.cf = &emit.CaseFile{Name: fmt.Sprintf("Cases_C15_%s_%d", s.prefix, s.n), Imports: imports, Check: s.check}
 		s.n++
 	}
 	s.cf.Add(term, text)
 	s.o.terms = append(s.o.terms, term)
 	s.o.nontr = append(s.o.nontr, nontrivial)
 	s.o.sum.Count(kind)
-	if len(s.cf.Cases) >= 700 {
+	limit := s.perFile
+	if limit == 0 {
+		limit = 700
+	}
+	if len(s.cf.Cases) >= limit {
 		return s.flush()
 	}
 	return nil
@@ -1037,11 +1047,17 @@ func Run(seed int64, tier, outDir string) (*emit.Summary, error) {
 		return nil, err
 	}
 
+	// ---- 4. the inventory client over a stateful fake API server ---------------------
+	if err := runClient(o, r, tier, pool); err != nil {
+		return nil, err
+	}
+
 	sum.Evaluations = len(o.terms)
 	sum.DistinctNontrivial = emit.Distinct(o.terms, o.nontr)
 	sum.Rule = "names: every name up to the systematic length over {a,-,.,:,_} in 6 shapes (the four RBAC kinds and two other kinds, namespaced and cluster-scoped) through String/Parse, ToStringMap/FromStringMap, Store/GetObject/Load and depends-on Format/Parse (non-trivial = non-empty name); " +
 		"inventories: former witnesses, every group of enumerated ids sharing a key, seeded Store sequences with repeats/prior data/status, malformed key strings; " +
-		"depends-on: seeded ids inside and outside the quantified domain with padding, malformed reference strings, sets, annotations; distinct = distinct Coq case terms"
+		"depends-on: seeded ids inside and outside the quantified domain with padding, malformed reference strings, sets, annotations; " +
+		"client: the real inventory.ClusterClient over kubectl's stateful fake dynamic client, sequences of first-run Merge / Merge over an existing inventory / Replace in every dry-run strategy and both status policies, apply sets mostly encodable with un-encodable members of every generated kind, each operation followed by GetClusterObjs, every mutating request recorded; distinct = distinct Coq case terms"
 	sum.Samples = []any{}
 	for _, name := range sum.CaseFiles {
 		t := sum.CaseText[name]
